@@ -117,6 +117,7 @@ func (m *readerModel) walker() *Walker {
 	w := NewWalker(m.c)
 	w.Effect = m.names.effect
 	w.Edge = m.names.edge
+	w.CondEdge = m.names.condEdge
 	w.NonNil = m.receivedDec
 	return w
 }
@@ -337,8 +338,12 @@ func (m *readerModel) ruleSeek(r *Rep, rule string) {
 		if e.Counts["send:waiting"] != took {
 			why[fmt.Sprintf("a path takes %d decompressor(s) from waiting/working and gives %d back to waiting (%s)", took, e.Counts["send:waiting"], traceStr(e.Trace))] = true
 		}
-		if e.Counts["send:control"] != took {
-			why[fmt.Sprintf("a path takes %d decompressor(s) and sends %d value(s) on control: the read-ahead goroutine is not re-pointed exactly once (%s)", took, e.Counts["send:control"], traceStr(e.Trace))] = true
+		// a path that took a decompressor has moved the reader: the worker is
+		// re-pointed. (A path that took none may re-point it too – a Seek served
+		// from the cache – which costs no decompressor; that such a send cannot
+		// block is the drain obligation below.)
+		if e.Counts["send:control"] < took {
+			why[fmt.Sprintf("a path takes %d decompressor(s) and sends %d value(s) on control: the read-ahead goroutine is not re-pointed (%s)", took, e.Counts["send:control"], traceStr(e.Trace))] = true
 		}
 		if took > 1 {
 			why["a path takes more than one decompressor"] = true
@@ -347,7 +352,59 @@ func (m *readerModel) ruleSeek(r *Rep, rule string) {
 	if w.overflow || n == 0 {
 		why["path enumeration failed: undecided"] = true
 	}
-	r.Check(len(why) == 0, rule, c.FnName(fn)+"#hand-back", c.Pos(fn.Pos()), fmt.Sprintf("on all %d feasible paths: decompressors taken = given back to waiting = values sent on control", n), joinSet(why))
+	r.Check(len(why) == 0, rule, c.FnName(fn)+"#hand-back", c.Pos(fn.Pos()), fmt.Sprintf("on all %d feasible paths: decompressors taken = given back to waiting ≤ values sent on control", n), joinSet(why))
+
+	// control has room for one instruction: a send by the reader does not block
+	// because the same function has emptied the channel just before (a select
+	// with a receive from control and a default), with no other send between.
+	for _, f := range m.fns {
+		if m.goEntry[f] || rootFn(f).Name() == m.cfg.newReader {
+			continue
+		}
+		f := f
+		k := 0
+		allInstrs(f, func(ins ssa.Instruction) {
+			if !m.isEff("send:control")(ins) {
+				return
+			}
+			if _, isSend := ins.(*ssa.Send); !isSend {
+				return // a call summarised as sending: decided in the callee
+			}
+			k++
+			r.Instance(rule, 1)
+			key := fmt.Sprintf("%s#control-drained~%d", c.FnName(f), k)
+			isDrain := func(x ssa.Instruction) bool {
+				sel, ok := x.(*ssa.Select)
+				if !ok || sel.Blocking {
+					return false
+				}
+				for _, stt := range sel.States {
+					if stt.Dir == types.RecvOnly && m.names.chanName(stt.Chan) == "control" {
+						return true
+					}
+				}
+				return false
+			}
+			_, undrained := pathTo(entryLoc(f), is(ins), isDrain, nil)
+			// … and no second send after the drain
+			again := false
+			allInstrs(f, func(d ssa.Instruction) {
+				if isDrain(d) {
+					if _, reach := pathTo(locOf(d), is(ins), func(x ssa.Instruction) bool { return x != ins && m.isEff("send:control")(x) }, nil); !reach {
+						again = true
+					}
+				}
+			})
+			why := ""
+			switch {
+			case undrained:
+				why = "the send on control can be reached without the channel having been emptied in this function: control holds one instruction, and if the worker has not taken the previous one the reader blocks in Seek for ever"
+			case again:
+				why = "between the emptying of control and this send there is another send: the channel is full again"
+			}
+			r.Check(why == "", rule, key, c.Pos(ins.Pos()), "control is emptied (select with default) before the send", why)
+		})
+	}
 }
 
 // R5: Close and channel capacities.
